@@ -7,6 +7,7 @@ import Msmart.Driver.Dev
 import Msmart.Driver.Lan
 import Msmart.Driver.Cloud
 import Msmart.Driver.Cli
+import Msmart.Driver.Session
 
 open Msmart Msmart.Driver
 
@@ -31,6 +32,9 @@ def handle (line : String) : String :=
     | some r => r
     | none =>
     match cliOp op t with
+    | some r => r
+    | none =>
+    match sessionOp op t with
     | some r => r
     | none => "bad-op"
 
